@@ -8,6 +8,30 @@ from .state import State, Unsupported, fresh, I
 
 
 class HeapMixin:
+    @staticmethod
+    def forall_p(vs, body, pats=()):
+        """ForAll with the given patterns when they are usable as E-matching triggers, plain ForAll otherwise."""
+        from .solve import _mentions
+
+        def ok(t):
+            todo = [t]
+            while todo:
+                x = todo.pop()
+                if z3.is_quantifier(x):
+                    return False
+                if z3.is_app(x) and x.decl().kind() in (z3.Z3_OP_ITE, z3.Z3_OP_AND, z3.Z3_OP_OR, z3.Z3_OP_NOT, z3.Z3_OP_EQ, z3.Z3_OP_LE, z3.Z3_OP_GE, z3.Z3_OP_LT, z3.Z3_OP_GT, z3.Z3_OP_IMPLIES):
+                    return False
+                todo.extend(x.children())
+            return all(_mentions(t, v) for v in vs)
+
+        good = [p for p in pats if ok(p)]
+        if good:
+            try:
+                return z3.ForAll(list(vs), body, patterns=good)
+            except z3.Z3Exception:
+                pass
+        return z3.ForAll(list(vs), body)
+
     # ---------------------------------------------------------------- smart select
     def qf_pc(self, st: State):
         """Quantifier-free part of the path condition (cached incrementally on the state)."""
@@ -171,8 +195,11 @@ class HeapMixin:
             raise Unsupported("element kind of list not yet known")
         return t.elem
 
+    def is_keylist(self, v: V) -> bool:
+        return getattr(v.kind.target, "keys_of", None) is not None
+
     def llen(self, st: State, v: V):
-        t = self.sel(st, self.H.len_arr(st), v.term)
+        t = self.sel(st, self.H.dklen_arr(st, v.kind.target.elem.sort()) if self.is_keylist(v) else self.H.len_arr(st), v.term)
         c = t >= 0
         if getattr(st, "spec", False):
             self.add_fact(st, c)
@@ -182,17 +209,19 @@ class HeapMixin:
 
     def larr(self, st: State, v: V):
         ek = self.elem_kind(v)
+        if self.is_keylist(v):
+            return self.sel(st, self.H.dkel_arr(st, ek.sort()), v.term)
         return self.sel(st, self.H.el_arr(st, ek.sort()), v.term)
 
     def lget(self, st: State, v: V, i) -> V:
         ek = self.elem_kind(v)
         val = self.from_term(ek, self.sel(st, self.larr(st, v), i))
         self.assume_wf(st, val)
-        self.assume_entry_wf(st, ek, self.H.n_el(ek.sort()), v.term, i)
+        self.assume_entry_wf(st, ek, self.H.n_dkel(ek.sort()) if self.is_keylist(v) else self.H.n_el(ek.sort()), v.term, i)
         d = getattr(v.kind.target, "keys_of", None)
         if d is not None:
             # instance of the dict representation invariant at this access
-            n = self.sel(st, self.H.len_arr(st), v.term)
+            n = self.llen(st, v)
             kt = self.sel(st, self.larr(st, v), i)
             pos = z3.Function(f"kpos_{ek.name}", I, ek.sort(), I)
             self.add_fact(st, z3.Implies(z3.And(0 <= i, i < n), z3.And(self.sel(st, self.sel(st, self.H.dom_arr(st, ek.sort()), d.term), kt), pos(d.term, kt) == i)), kt)
@@ -208,9 +237,8 @@ class HeapMixin:
 
     def key_instance(self, st: State, d: V, key_t):
         k = d.kind.target.k
-        kl_addr = self.sel(st, self.H.dkeys_arr(st), d.term)
-        n = self.sel(st, self.H.len_arr(st), kl_addr)
-        arr = self.sel(st, self.H.el_arr(st, k.sort()), kl_addr)
+        n = self.sel(st, self.H.dklen_arr(st, k.sort()), d.term)
+        arr = self.sel(st, self.H.dkel_arr(st, k.sort()), d.term)
         pos = z3.Function(f"kpos_{k.name}", I, k.sort(), I)
         p = pos(d.term, key_t)
         dm = self.sel(st, self.sel(st, self.H.dom_arr(st, k.sort()), d.term), key_t)
@@ -279,6 +307,8 @@ class HeapMixin:
 
     def lset_all(self, st: State, v: V, n, arr, frame_node=None):
         """Replace the whole contents of list v."""
+        if self.is_keylist(v):
+            raise Unsupported("mutation of a dict key view")
         self.check_frame(st, "list", v.term, frame_node)
         ek = self.elem_kind(v)
         st.heap["len"] = z3.Store(self.H.len_arr(st), v.term, n)
@@ -370,8 +400,8 @@ class HeapMixin:
         d = V(Ref(dt), a)
         if k is not None:
             st.heap["f___cls_Int"] = z3.Store(self.cls_arr(st), a, z3.IntVal(self.container_tag(dt)))
-        keys = self.new_list(st, k)
-        st.heap["dkeys"] = z3.Store(self.H.dkeys_arr(st), a, keys.term)
+        if k is not None:
+            st.heap[self.H.n_dklen(k.sort())] = z3.Store(self.H.dklen_arr(st, k.sort()), a, z3.IntVal(0))
         if k is not None:
             self._dict_clear_dom(st, d)
         else:
@@ -380,6 +410,7 @@ class HeapMixin:
 
     def _dict_clear_dom(self, st, d):
         k, _ = d.kind.target.k, d.kind.target.v
+        st.heap[self.H.n_dklen(k.sort())] = z3.Store(self.H.dklen_arr(st, k.sort()), d.term, z3.IntVal(0))
         name = self.H.n_dom(k.sort())
         st.heap[name] = z3.Store(self.H.dom_arr(st, k.sort()), d.term, z3.K(k.sort(), z3.BoolVal(False)))
 
@@ -387,10 +418,7 @@ class HeapMixin:
         k = d.kind.target.k
         lt = ListT(k)
         lt.keys_of = d
-        kl = V(Ref(lt), self.sel(st, self.H.dkeys_arr(st), d.term))
-        self.add_fact(st, self.ref_wf(st, kl))
-        self.assume_entry_wf(st, kl.kind, "dkeys", d.term)
-        return kl
+        return V(Ref(lt), d.term)
 
     def dhas(self, st: State, d: V, key: V):
         k, _ = self.dict_kinds(d)
@@ -416,32 +444,28 @@ class HeapMixin:
             t.name = f"dict[{t.k.name},{t.v.name}]"
             self._dict_clear_dom(st, d)
             self.set_tag(st, d)
-            klv = V(Ref(ListT(t.k)), self.H.dkeys_arr(st)[d.term])
-            self.set_tag(st, klv)
-            kl = V(Ref(ListT(t.k)), self.H.dkeys_arr(st)[d.term])
         k, vk = t.k, t.v
         kt = self.to_term(key, k)
-        had = self.H.dom_arr(st, k.sort())[d.term][kt]
+        had = self.sel(st, self.sel(st, self.H.dom_arr(st, k.sort()), d.term), kt)
         # key list (insertion order): append when the key is new
-        kl = V(Ref(ListT(k)), self.H.dkeys_arr(st)[d.term])
-        n = self.H.len_arr(st)[kl.term]
-        ea = self.H.el_arr(st, k.sort())
-        st.heap[self.H.n_el(k.sort())] = z3.Store(ea, kl.term, z3.If(had, ea[kl.term], z3.Store(ea[kl.term], n, kt)))
-        st.heap["len"] = z3.Store(self.H.len_arr(st), kl.term, z3.If(had, n, n + 1))
+        n = self.sel(st, self.H.dklen_arr(st, k.sort()), d.term)
+        ea = self.H.dkel_arr(st, k.sort())
+        cur = self.sel(st, ea, d.term)
+        st.heap[self.H.n_dkel(k.sort())] = z3.Store(ea, d.term, z3.If(had, cur, z3.Store(cur, n, kt)))
+        st.heap[self.H.n_dklen(k.sort())] = z3.Store(self.H.dklen_arr(st, k.sort()), d.term, z3.If(had, n, n + 1))
         dn = self.H.n_dom(k.sort())
         da = self.H.dom_arr(st, k.sort())
-        st.heap[dn] = z3.Store(da, d.term, z3.Store(da[d.term], kt, z3.BoolVal(True)))
+        st.heap[dn] = z3.Store(da, d.term, z3.Store(self.sel(st, da, d.term), kt, z3.BoolVal(True)))
         mn = self.H.n_map(k.sort(), vk.sort())
         ma = self.H.map_arr(st, k.sort(), vk.sort())
-        st.heap[mn] = z3.Store(ma, d.term, z3.Store(ma[d.term], kt, self.to_term(val, vk)))
+        st.heap[mn] = z3.Store(ma, d.term, z3.Store(self.sel(st, ma, d.term), kt, self.to_term(val, vk)))
 
     def dict_wf(self, st: State, d: V):
         """Representation invariant linking a dict's domain with its ghost key list (assumed for inputs,
         maintained by dset): keys are distinct and dom(k) <=> k occurs in the key list."""
         k, _ = self.dict_kinds(d)
-        kl = V(Ref(ListT(k)), self.sel(st, self.H.dkeys_arr(st), d.term))
-        n = self.sel(st, self.H.len_arr(st), kl.term)
-        arr = self.sel(st, self.H.el_arr(st, k.sort()), kl.term)
+        n = self.sel(st, self.H.dklen_arr(st, k.sort()), d.term)
+        arr = self.sel(st, self.H.dkel_arr(st, k.sort()), d.term)
         dom = self.sel(st, self.H.dom_arr(st, k.sort()), d.term)
         i, j = z3.Ints("wf_i wf_j")
         kk = z3.Const("wf_k", k.sort())
@@ -462,7 +486,7 @@ class HeapMixin:
         q1 = z3.ForAll([i], b1, patterns=[arr[i]]) if pat_ok(arr[i]) else z3.ForAll([i], b1)
         pats = [p_ for p_ in (pos(d.term, kk), dom[kk]) if pat_ok(p_)]
         q2 = z3.ForAll([kk], b2, patterns=pats) if pats else z3.ForAll([kk], b2)
-        return z3.And(n >= 0, kl.term >= 1, q1, q2)
+        return z3.And(n >= 0, q1, q2)
 
     # ---------------------------------------------------------------- object fields
     def field_kind(self, cls: str, f: str) -> Kind | None:
@@ -495,6 +519,8 @@ class HeapMixin:
         allowed = [addr >= self.top0]
         for reg, a in self.allowed_writes:
             if reg == region or reg == "*" or (reg == "field:*" and region.startswith("field:")):
+                if a is None:
+                    return
                 allowed.append(addr == a)
         goal = z3.Or(allowed) if len(allowed) > 1 else allowed[0]
         goal_s = z3.simplify(goal)
@@ -505,13 +531,37 @@ class HeapMixin:
             al = [addr >= ltop]
             for reg, a in lallowed:
                 if reg == region or reg == "*" or (reg == "field:*" and region.startswith("field:")):
-                    al.append(addr == a)
+                    al.append(addr == a if a is not None else z3.BoolVal(True))
             g = z3.simplify(z3.Or(al) if len(al) > 1 else al[0])
             if not z3.is_true(g):
                 self.oblige(st, "frame", f"loop{lid}:{region}", g, node)
 
+    def check_frame_wildcard(self, st: State, region: str, node=None):
+        """A callee may write `region` of arbitrary objects: the caller must hold the same wildcard."""
+        ok = any(reg == region and a is None for reg, a in self.allowed_writes)
+        if not ok:
+            self.oblige(st, "frame", f"all:{region}", z3.BoolVal(False), node)
+        for (ltop, lallowed, lid) in st.loop_frames:
+            if not any(reg == region and a is None for reg, a in lallowed):
+                self.oblige(st, "frame", f"loop{lid}:all:{region}", z3.BoolVal(False), node)
+
+    def havoc_all(self, st: State, region: str):
+        """Wildcard havoc: the region of *every* object (all dicts / field f of all objects)."""
+        if region == "dict":
+            prefs = ("dom_", "map_", "dkel_", "dklen_")
+        elif region.startswith("field:"):
+            prefs = (f"f_{region[6:]}_",)
+        else:
+            raise Unsupported(f"wildcard havoc of {region}")
+        for name in list(set(st.heap) | set(self.H.base)):
+            if name.startswith(prefs) and not name.startswith("f___"):
+                arr = st.heap.get(name, self.H.base.get(name))
+                st.heap[name] = fresh("hall_" + name, arr.sort())
+
     def havoc_region(self, st: State, region: str, addr):
         """Forget everything about `region` at `addr` (used for loop cuts and callee modifies)."""
+        if addr is None:
+            return self.havoc_all(st, region)
         if region == "list":
             st.heap["len"] = z3.Store(self.H.len_arr(st), addr, fresh("hlen", I))
             for name in list(st.heap):
@@ -524,11 +574,14 @@ class HeapMixin:
                     st.heap[name] = z3.Store(arr, addr, fresh("hel", arr.sort().range()))
         elif region == "dict":
             for name in list(st.heap):
-                if name.startswith("dom_") or name.startswith("map_"):
+                if name.startswith("dom_") or name.startswith("map_") or name.startswith("dkel_") or name.startswith("dklen_"):
                     arr = st.heap[name]
                     st.heap[name] = z3.Store(arr, addr, fresh("hd", arr.sort().range()))
-            kl = self.H.dkeys_arr(st)[addr]
-            self.havoc_region(st, "list", kl)
+            for name in list(self.H.base):
+                if (name.startswith("dom_") or name.startswith("map_") or name.startswith("dkel_") or name.startswith("dklen_")) and name not in st.heap:
+                    arr = self.H.base[name]
+                    st.heap[name] = z3.Store(arr, addr, fresh("hd", arr.sort().range()))
+
         elif region.startswith("field:"):
             f = region[6:]
             pref = f"f_{f}_" if f != "*" else "f_"
